@@ -11,3 +11,7 @@ Theorem C03_longest_total : C03_longest_total_stmt.    Proof. exact Proofs.C03.C
 Theorem C03_event : C03_event_stmt.                    Proof. exact Proofs.C03.C03_event. Qed.
 Theorem C03_last : C03_last_stmt.                      Proof. exact Proofs.C03.C03_last. Qed.
 Theorem C03_refuted_pinned : C03_refuted_pinned_stmt.  Proof. exact Proofs.C03.C03_refuted_pinned. Qed.
+
+(** Chart level: every track of every successfully parsed chart (through [from_file]). *)
+From CP Require Import Spec.ChartNotes Proofs.ChartNotes.
+Theorem C03_chart : C03_chart_stmt.  Proof. exact Proofs.ChartNotes.C03_chart. Qed.
